@@ -13,7 +13,8 @@ import jax.random as jr
 import numpy as np
 
 from lerax.algorithm import A2C, PPO, REINFORCE
-from lerax.callback import AbstractCallback, AbstractCallbackState, AbstractCallbackStepState
+from lerax.callback import (AbstractCallback, AbstractCallbackState, AbstractCallbackStepState, AbstractLoggingBackend,
+                            CallbackList, LoggingCallback)
 
 from . import tables as tb
 
@@ -51,6 +52,57 @@ class Recorder(AbstractCallback):
 
     def continue_training(self, ctx, *, key):
         return jnp.array(True)
+
+
+class RecordingBackend(AbstractLoggingBackend):
+    """Logging backend that appends every call to a Python list (a user of the public backend interface)."""
+    records: list = eqx.field(static=True)
+
+    def __init__(self):
+        self.records = []
+
+    def open(self, name):
+        self.records.append(("open", name))
+
+    def log_hparams(self, hparams):
+        self.records.append(("hparams", dict(hparams)))
+
+    def log_scalars(self, scalars, step):
+        keep = {k: float(np.asarray(v)) for k, v in scalars.items()
+                if isinstance(v, (np.ndarray, np.generic, float, int)) and np.ndim(v) == 0}
+        self.records.append(("scalars", keep, int(np.asarray(step))))
+
+    def log_video(self, tag, frames, step, fps):
+        self.records.append(("video", tag, int(step)))
+
+    def close(self):
+        self.records.append(("close",))
+
+
+_LOGCB = None
+
+
+def logging_callback(an: int):
+    """The one real LoggingCallback used by all recorded runs (its static parts must not change between runs,
+    or every run would recompile); alpha = an/4 is an array leaf."""
+    global _LOGCB
+    if _LOGCB is None:
+        be = RecordingBackend()
+        _LOGCB = (LoggingCallback(be, name="lvf"), be)
+    cb, be = _LOGCB
+    return eqx.tree_at(lambda c: c.alpha, cb, jnp.asarray(an / 4.0, dtype=jnp.float32)), be
+
+
+SD = 65536
+
+
+def proj_stats(st) -> dict:
+    def fxs(x):
+        v = float(x) * SD
+        return int(round(v)) if abs(v - round(v)) < 1e-2 and abs(v) < 2e9 else 7777777
+    r = float(st.episode_return)
+    return dict(step=int(st.step), ret=int(round(r)) if abs(r - round(r)) < 1e-4 else 7777777, len=int(st.episode_length),
+                latch=bool(st.episode_done), avgR=fxs(st.average_return), avgL=fxs(st.average_length))
 
 
 def _rec_train(self, policy, opt_state, buffer, *, key):
@@ -131,16 +183,22 @@ def record_onpolicy(cache: tb.EnvCache, cfg: dict, algo_name: str, N: int, iters
     T = cfg["H"]
     policy = tb.TableACPolicy(env, cfg)
     algo = with_hparams(make_algo(algo_name, N, T), cfg["g2"], 2 if algo_name == "REINFORCE" else cfg["l2"])
-    cb = Recorder()
+    logcb, backend = logging_callback(cfg.get("an", 2))
+    cb = CallbackList([Recorder(), logcb])
     k0, k1 = jr.split(jr.key(seed))
     state = _reset(algo, env, policy, k0, cb)
     traces = []
+    jax.effects_barrier()
+    del backend.records[:]
+    done_count = [0] * N
     D = 2 ** (2 * T - 1)
     for it, k in enumerate(jr.split(k1, iters)):
         before = jax.device_get(state.step_state)
         state = _iteration(algo, state, k, cb)
-        buf = jax.device_get(state.callback_state.log["buffer"])
+        buf = jax.device_get(state.callback_state.states[0].log["buffer"])
         after = jax.device_get(state.step_state)
+        jax.effects_barrier()
+        recs = [r for r in backend.records if r[0] == "scalars"]
         for e in range(N):
             sel = (lambda x: x[e]) if N > 1 else (lambda x: x)
             b = jax.tree.map(sel, buf)
@@ -153,10 +211,16 @@ def record_onpolicy(cache: tb.EnvCache, cfg: dict, algo_name: str, N: int, iters
                     rew=half(b.rewards[t]), done=bool(b.dones[t]), logp=tb.q4(b.log_probs[t]), val=tb.q4(b.values[t]) // 4
                     if tb.q4(b.values[t]) % 4 == 0 else 7777777, pstate=int(b.states.n[t]),
                     mask=[bool(x) for x in b.action_masks[t]] if b.action_masks is not None else []))
-            init = dict(tb.proj_env_state(s0.env_state, depth), ps=int(s0.policy_state.n))
+            init = dict(tb.proj_env_state(s0.env_state, depth), ps=int(s0.policy_state.n),
+                        stats=proj_stats(s0.callback_state.states[1]))
             fin = dict(tb.proj_env_state(s1.env_state, depth), ps=int(s1.policy_state.n),
-                       adv=[fx(x, D) for x in b.advantages], ret=[fx(x, D) for x in b.returns])
+                       adv=[fx(x, D) for x in b.advantages], ret=[fx(x, D) for x in b.returns],
+                       stats=proj_stats(s1.callback_state.states[1]))
+            done_count[e] += sum(1 for r in rows if r["done"])
             traces.append({"cfg": cfg, "init": init, "rows": rows, "final": fin,
-                           "meta": {"algo": algo_name, "N": N, "env": e, "iter": it,
-                                    "cb_steps": int(s1.callback_state.n), "cb_rsum2": half(s1.callback_state.rsum)}})
+                           "meta": {"algo": algo_name, "N": N, "env": e, "iter": it, "dones_so_far": done_count[e],
+                                    "cb_steps": int(s1.callback_state.states[0].n),
+                                    "record": ({"n_records": len(recs), "step": recs[-1][2],
+                                                "retN": int(round(recs[-1][1]["episode/return"] * N * SD)),
+                                                "lenN": int(round(recs[-1][1]["episode/length"] * N * SD))} if recs else None)}})
     return traces
